@@ -138,6 +138,16 @@ KERNELS = [
     dict(name="shrink_mutation", file="utils/mutations.py", func="shrink_mutation",
          params=[("tree", "Tree"), ("uniset", "Opaque"), ("proba", "Int"), ("max_level", "Int")], ret="Tree", streams=True,
          tree_calls={"get_args_id": "find_id_args_from_i", "subtree": "Tree_subtree", "concat": "Tree_concat"}),
+    # ---- the donor strategies of differential evolution: straight-line vector arithmetic (translated over the ring Int: the
+    #      float operations are read as ring operations) on rows chosen by random_sample, which is a parameter taking
+    #      the call's actual arguments and the call's ordinal: `sample range_size quantity replace k`
+    *[dict(name=n, file="utils/mutations.py", func=n,
+           params=[("current_individual", "Arr"), ("best_individual", "Arr"), ("population", "Mat"), ("F", "Int")], ret="Arr",
+           ext_fn={"random_sample": ("sampler", ["range_size", "quantity", "replace"])})
+      for n in ("best_1", "rand_1", "rand_to_best1", "current_to_best_1", "best_2", "rand_2")],
+    dict(name="current_to_pbest_1_archive", file="utils/mutations.py", func="current_to_pbest_1_archive",
+         params=[("current", "Arr"), ("population", "Mat"), ("pbest", "Arr"), ("F", "Int"), ("pop_archive", "Mat")], ret="Arr", streams=True,
+         ext_fn={"random_sample": ("sampler", ["range_size", "quantity", "replace"])}),
     dict(name="tournament_selection", file="utils/selections.py", func="tournament_selection",
          params=[("fitness", "Arr"), ("rank", "Arr"), ("tour_size", "Int"), ("quantity", "Int")], ret="Arr",
          ext_stream={"random_sample": "samples"}),
@@ -147,7 +157,7 @@ LTY = {"Int": "Int", "Arr": "List Int", "Bool": "Bool", "Mat": "List (List Int)"
        "ArrSelf": "List (List Int)"}
 TREE_ATTR = {"_nodes": "nodes", "_n_args": "nargs"}
 DEFAULT = {"Int": "0", "Arr": "[]", "Bool": "false", "Mat": "[]"}
-RESERVED = ("end", "at", "from", "to", "in", "do", "then", "fun", "match", "with", "open", "by", "s", "us", "ns", "fuel", "rolls", "max", "min", "hi0", "samples", "self", "self_nodes", "self_nargs", "log", "stops", "kb", "value_ext", "tree")
+RESERVED = ("sampler", "end", "at", "from", "to", "in", "do", "then", "fun", "match", "with", "open", "by", "s", "us", "ns", "fuel", "rolls", "max", "min", "hi0", "samples", "self", "self_nodes", "self_nargs", "log", "stops", "kb", "value_ext", "tree")
 
 
 class NotRecognised(Exception):
@@ -193,6 +203,7 @@ class Tr:
         self.self_attrs = cfg.get("self_attrs", {})
         self.ext = cfg.get("ext", {})
         self.ext_stream = cfg.get("ext_stream", {})
+        self.ext_fn = cfg.get("ext_fn", {})
         self.self_state = cfg.get("self_state", [])
         self.method_uses = cfg.get("method_uses", {})
         self.tree_calls = cfg.get("tree_calls", {})
@@ -257,6 +268,8 @@ class Tr:
             return {"Mat": "Arr", "Arr": "Int"}.get(self.ty(e.value), "Int")
         if isinstance(e, ast.BinOp) and isinstance(e.op, ast.Mult) and self.ty(e.left) == "Int" and self.ty(e.right) == "Arr":
             return "Arr"
+        if isinstance(e, ast.BinOp) and isinstance(e.op, (ast.Add, ast.Sub)) and self.ty(e.left) == "Arr" and self.ty(e.right) == "Arr":
+            return "Arr"
         if isinstance(e, ast.Call):
             f = e.func
             nm = callname(f)
@@ -270,7 +283,7 @@ class Tr:
                 return "Arr"
             if nm in ("sorted", "range"):
                 return "Arr"
-            if nm in self.ext_stream:
+            if nm in self.ext_stream or nm in self.ext_fn:
                 return "Arr"
             if nm in ("flip_coin", "bool") or self.self_call_name(e) in self.bool_stream:
                 return "Bool"
@@ -425,6 +438,15 @@ class Tr:
                 xs = self.ext_stream[nm]
                 lines.append(f"{{ s with {t} := Imp.getrow {xs} (s.kx : Int), dry := s.dry || decide ({xs}.length ≤ s.kx), kx := s.kx + 1 }}")
                 env[id(e)] = f"s.{t}"
+            elif kind == "xfn":
+                par, names = self.ext_fn[nm]
+                kw = {k.arg: k.value for k in e.keywords}
+                actual = list(e.args) + [kw.get(n) for n in names[len(e.args):]]
+                if len(actual) != len(names) or any(a is None for a in actual) or len(kw) != len(names) - len(e.args):
+                    raise NotRecognised(f"arguments of {ast.unparse(e)}")
+                t = self.tmp("Arr")
+                lines.append(f"{{ s with {t} := {par} " + " ".join(self.E(a, env) for a in actual) + f" s.kx, kx := s.kx + 1 }}")
+                env[id(e)] = f"s.{t}"
             elif kind == "pop":
                 a = self.id(e.func.value.id)
                 t = self.tmp("Int")
@@ -566,6 +588,8 @@ class Tr:
             return "kernel"
         if nm in self.ext_stream:
             return "xstream"
+        if nm in self.ext_fn:
+            return "xfn"
         if self.self_call_name(e) in self.bool_stream:
             return "bstream"
         return None
@@ -613,6 +637,10 @@ class Tr:
             a, b = self.E(e.left, env), self.E(e.right, env)
             if isinstance(e.op, ast.Mult) and self.ty(e.left) == "Int" and self.ty(e.right) == "Arr":
                 return f"(({b}).map fun v => {a} * v)"
+            if isinstance(e.op, (ast.Add, ast.Sub)) and (self.ty(e.left) == "Arr" or self.ty(e.right) == "Arr"):
+                if self.ty(e.left) != "Arr" or self.ty(e.right) != "Arr":
+                    raise NotRecognised("array + scalar")
+                return f"(Imp.{'vadd' if isinstance(e.op, ast.Add) else 'vsub'} {a} {b})"
             if isinstance(e.op, ast.Add):
                 return f"({a} + {b})"
             if isinstance(e.op, ast.Sub):
@@ -780,6 +808,9 @@ class Tr:
         if isinstance(e, ast.Call) and id(e) in env:
             # a hoisted call: its arguments were evaluated before; their reads are checked where the call was hoisted
             return "false"
+        if isinstance(e, ast.BinOp) and isinstance(e.op, (ast.Add, ast.Sub)) and self._safe_ty(e) == "Arr":
+            # elementwise operation: operands of different lengths are a shape error
+            return bor(self.oob(e.left, env), self.oob(e.right, env), f"decide (Imp.leni {self.E(e.left, env)} ≠ Imp.leni {self.E(e.right, env)})")
         return bor(*[self.oob(c, env) for c in ast.iter_child_nodes(e) if isinstance(c, ast.expr)])
 
     def Ex(self, e, env):
@@ -883,6 +914,13 @@ class Tr:
                 L.append(f"(match {callee} self_nodes self_nargs {args} with | some v => {{ s with {tmpn} := v }} | none => {{ s with err := true }})")
                 L.append(f"{{ s with err := s.err || decide ((s.{tmpn}).length ≠ {len(t.elts)}) }}")
                 L.append("{ s with " + ", ".join(f"{self.id(el.id)} := Imp.geti s.{tmpn} ({k} : Int)" for k, el in enumerate(t.elts)) + " }")
+                return L
+            if isinstance(t, ast.Tuple) and all(isinstance(el, ast.Name) for el in t.elts) and isinstance(st.value, ast.Call) and self._safe_ty(st.value) == "Arr":
+                # a, b, ... = <array>: the array must have exactly that many elements
+                env = self.pre([st.value], L)
+                v = self.E(st.value, env)
+                L.append(f"{{ s with err := s.err || decide (({v}).length ≠ {len(t.elts)}) }}")
+                L.append("{ s with " + ", ".join(f"{self.id(el.id)} := Imp.geti {v} ({k} : Int)" for k, el in enumerate(t.elts)) + " }")
                 return L
             if isinstance(t, ast.Name):
                 env = self.pre([st.value], L)
@@ -1131,6 +1169,7 @@ class Tr:
         if self.roll_stream:
             extra += " (rolls : List Int)"
         extra += "".join(f" ({v} : List (List Int))" for v in self.ext_stream.values())
+        extra += "".join(f" ({par} : " + " → ".join(LTY[KERNEL_PARAM_TY[nm_][a]] for a in names) + " → Nat → List Int)" for nm_, (par, names) in self.ext_fn.items())
         extra += "".join(f" ({par} : List Int)" for _, par in self.opaque_if.values())
         extra += "".join(f" ({v} : Bool)" for v in self.not_none.values())
         extra += "".join(f" ({par} : List Int)" for par, _ in self.bool_stream.values())
@@ -1140,13 +1179,14 @@ class Tr:
                 f"   on every run of the checks that depend on it. Do not edit. -/\n"
                 f"import TFV.Model.Imp\n{imports}\nset_option linter.unusedVariables false\n\nnamespace TFV.Generated.Src\nopen TFV\n\n"
                 f"structure {name}.S where\n{fields}  brk : Bool := false\n  cnt : Bool := false\n  err : Bool := false\n  dry : Bool := false\n"
-                f"  ku : Nat := 0\n  kn : Nat := 0\n  kr : Nat := 0\n" + ("  kx : Nat := 0\n" if self.ext_stream else "") + ("  kb : Nat := 0\n  log : List Int := []\n" if (self.bool_stream or self.actions) else "") + "\n"
+                f"  ku : Nat := 0\n  kn : Nat := 0\n  kr : Nat := 0\n" + ("  kx : Nat := 0\n" if (self.ext_stream or self.ext_fn) else "") + ("  kb : Nat := 0\n  log : List Int := []\n" if (self.bool_stream or self.actions) else "") + "\n"
                 f"def {name} {params} {extra} : Option ({LTY[cfg['ret']]}) :=\n"
                 f"  let s : {name}.S := {{" + ", ".join(f"self{a} := Imp.geti self ({k} : Int)" for k, a in enumerate(self.self_state)) + f"}}\n{fuel}{body}\n\nend TFV.Generated.Src\n")
 
 
 NP_FUNCS = ("int64", "floor", "array", "empty", "zeros", "empty_like", "arange", "cumsum", "argmax")
 KERNEL_BY_NAME = {k["name"]: k for k in KERNELS}
+KERNEL_PARAM_TY = {k["name"]: dict(k["params"]) for k in KERNELS}
 
 
 def translate(repo: Path, cfg: dict) -> str:
